@@ -6,6 +6,11 @@ HERE = os.path.dirname(os.path.dirname(os.path.abspath(__file__)))
 ALL = ["C%02d" % i for i in range(1, 21)]
 
 CLAIMED = {
+ "C09": dict(
+   technique="TLA+ model ParamSubst.tla (unique maps, substitution through views) checked by TLC over all alias partitions; hook-recorded substitution protocol of every functional on every representation validated by TLC against Trace_ParamSubst.tla, final event carrying the numeric verdicts value/grad1/grad2 equal to the pure-function form",
+   text="Design level: for every aliasing partition of the object's named tensors TLC checks that expanding the unique list restores the full list, that a substitution installs exactly the requested tensors and that every evaluation sees them. Implementation level: each of the 8 functionals is run on 7 representations of one function family (nn.Module with nested sub-module, EditableModule with derived/list-/dict-held aliased tensors, nn.Module inside EditableModule, mixed explicit/object/non-tensor parameters, single and multiple siblings, tied nn parameters) with default and iterative backward solvers; TLC accepts the recorded protocol only if each view starts from the unique list of what the object holds, each substitution installs Expand(requested) and the final event's verdicts (value, first- and second-order gradients equal to the pure-function form) are all true.",
+   design_ref="5.1, 6 (C09)",
+   note="Trusted: TLC/SANY, hooks, numeric comparison in harness/props/c09.py (1e-9 + 1e-7 relative: identical arithmetic), the function family of harness/vlib/problems.py. Scripted functions are not covered."),
  "C10": dict(
    technique="TLA+ model of the substitution protocols (ParamSubst.tla) checked exhaustively by TLC for every nesting and crash index within bounds; TLC state graph and simulated behaviours replayed on the real PureFunction/_Jac/debug objects; hook-recorded executions of every functional with a crash injected at evaluation k validated by TLC against Trace_ParamSubst.tla",
    text="TLC explores every interleaving of substitutions, Jacobian-operator parameter substitution, debug and state-change blocks, user-function evaluations and an exception raised at any evaluation index (5 aliasing patterns, nesting depth <= 3-4) and checks Quiescent (object, Parameter registration order, stacks, flags exactly as before whenever no block is open), LIFO and that an evaluation sees the requested tensors; each deviation switch (missing finally, push after check, shared list) is shown to violate them. The binding is two-way: every edge of the graph is executed on real objects with the full projected state compared, and ~2000 (quick) recorded runs of all eight functionals x 6 representations x forward/backward/double-backward x crash index are accepted by TLC step by step. Tests only sample the no-failure path.",
